@@ -77,6 +77,11 @@ CLAIMS = {
         text='Static: none of the 207 functions of the optimizer modules declares global/nonlocal, stores attributes outside constructors, stores into or mutates a captured/module-level object or a parameter (exception: `exponents`, created afresh by the only caller), memoises, draws from the global RNG, builds an unseeded generator or reads the clock/environment - so init/update are pure functions of (gradients, state, params, configuration); all state containers are NamedTuples / flax struct dataclasses without mutable class-level defaults; static (non-pytree) fields and the whole layout are identical at init and after any update path; counters start as int32 zeros and advance by one. Necessary conditions of C14.',
         note='Trusted: syntactic effect recognition with one-level aliasing; jax/optax primitives are pure. Undecided: bit-identity of the msgpack round trip itself.',
         design='4/C14'),
+    'C15': dict(
+        technique='order/plumbing rules on the value graph of the Tearfree factories (call-argument flow), dependence of stages on learning_rate, normal forms of the Shampoo root and Sketchy application, plus the Tearfree parts of C04/C05/C06/C08/C09',
+        text='Static: tearfree() = sharded_chain(graft(grafting_options, second_order(second_order_options)), momentum(momentum_options), scale(-lr) | scale_by_schedule(-lr(t))) in that order, chain threading in argument order, learning_rate reaching only the last stage (exact linearity); second_order = merge -> precondition -> unmerge from one reshaper options value (Shampoo block size / Sketchy 0), state initialised on merged params; momentum stage list for all 16 option valuations; Shampoo root p = 2*rank with half factors w^(-0.5/p) and per-block 1e-6 relative cut-off; Sketchy applies V diag(inv) V^T + inv_tail(I - VV^T) per axis (ekfac slots); plus Tearfree cadence/warm-up, grafting, merge/pad/blockify losslessness, block independence, sketch decay rules. Necessary conditions of C15.',
+        note='Trusted: documented meaning of optax.scale / trace / add_decayed_weights. Undecided: numeric equality with an independent reference.',
+        design='4/C15'),
 }
 
 NOT_BUILT_REASON = 'checker for this property not built yet (build phase in progress; see DESIGN.md section 9)'
